@@ -39,7 +39,7 @@ type propSpec struct {
 var props = map[string]*propSpec{}
 
 func regE(id, title string, quick int64) {
-	props[id] = &propSpec{World: func() sim.World { return engine.World{} }, WorldName: "E", QuickRuns: quick, Title: title,
+	props[id] = &propSpec{World: func() sim.World { return engine.World{} }, WorldName: "E", QuickRuns: quick, Title: title, Shards: true,
 		Rule:   "one case = one simulated hand (drawn configuration + deck + fault mix, clients over a faulty transport, server with warm/cold-restart/backend-hop execution); non-trivial = at least one fault fired AND the hand reached GameClosed; distinct = distinct (abstract state, operation, legitimacy class, outcome) transitions observed in non-trivial runs, abstract state = (event, round, per seat folded/all-in/owes/matched, number of pots, seats)",
 		Assume: []string{"combination.CalculatePower orders five-card hands correctly (C03, not simulated)", "the deck is pinned after Start() by overwriting Meta.Deck before any card is dealt", "operations outside the Game interface's Operations/Actions groups are not called"}}
 }
